@@ -818,6 +818,9 @@ class ConditionBinaryOp(ConditionLike):
     def __new__(cls, *conditions):
         """If one of the conditions is a NullCondition, then abort object construction,
         and just return the non-null condition."""
+        if not conditions:
+            # e.g. `copy.deepcopy` and `pickle` re-create the object without arguments
+            return super().__new__(cls)
         return null_condition_binary_check(*conditions) or super().__new__(cls)
 
     def __init__(self, *conditions):
